@@ -472,6 +472,11 @@ class Interp:
         if isinstance(v, (Sym, int, str, bytes, tuple, bool, Fraction, PyList, PyDict, PySet, SymSeq, SymMap, BitSet, Closure, FuncVal, Bound)):
             if isinstance(v, (Closure, FuncVal)) and name == '_event':
                 pass
+            real = {'str': str, 'bytes': bytes, 'int': int, 'bool': bool, 'real': float, 'list': list, 'dict': dict, 'set': set,
+                    'tuple': tuple}.get(ops.pytype(v))
+            if real is not None and hasattr(real, name):
+                # a real attribute of the python type that the engine has no model for: undecided, never an AttributeError
+                raise Unsupported('%s.%s is not modelled' % (real.__name__, name))
             self.ctx.raise_exc('AttributeError', '%s has no attribute %s' % (ops.pytype(v), name))
         raise Unsupported('attribute %s of %r' % (name, v))
 
